@@ -1,8 +1,347 @@
-import Karp.Driver.Proto
+import Karp.Driver.ScenarioJson
+import Karp.Model.ConsolidateScn
+import Karp.Spec.Consolidation
 
 namespace Karp.Driver.C06
-open Lean Karp.Driver
+open Lean Karp.Driver Karp.Driver.ReqJson Karp.Driver.ScenarioJson Karp.Req Karp.Scn
+open Karp.Consolidate (IType Cand Sim Decision offeringOf itypeOf candOf)
+abbrev MClaim := Karp.Consolidate.Claim
 
-def handle : Handler := fun op _ _ => .error s!"unknown op {op}"
+
+def ridKey : String := Karp.Gen.C06Facts.testReservationIDLabel
+
+/-! ### scenario → model vocabulary -/
+
+/-! ### JSON -/
+
+structure ClaimJ where
+  pool : String
+  pods : List String
+  reqs : Reqs
+  its : List String
+
+def claimJ (j : Json) : Except String ClaimJ := do
+  let reqs ← match fldOpt j "reqs" with
+    | some (.obj kvs) => kvs.toList.mapM (fun (k, v) => do pure (k, ← snapReq v))
+    | _ => pure []
+  pure { pool := ← strF j "pool", pods := ← listF asStr j "pods", reqs := reqs, its := ← listF asStr j "its" }
+
+def ClaimJ.toScn (c : ClaimJ) : Scn.Claim :=
+  { pool := c.pool, pods := c.pods, reqs := c.reqs, its := c.its, reqCPU := 0, reqMem := 0, reqPods := 0, taints := [] }
+
+def ClaimJ.toModel (s : Scenario) (c : ClaimJ) : MClaim :=
+  { reqs := c.reqs, its := (c.its.filterMap s.it?).map itypeOf }
+
+def podInfo (j : Json) : Except String Karp.Spec.Consolidation.PodInfo := do
+  let phase := (← strO j "phase").getD ""
+  pure { pod := ← strF j "pod", delCost := ← intO j "delCost", prio := ← intO j "priority", terminal := phase == "Succeeded" || phase == "Failed" }
+
+def simOf (s : Scenario) (j : Json) : Except String (Option Sim) := do
+  if (← strF j "err") != "" then return none
+  let claims ← listF claimJ j "claims"
+  pure (some { allScheduled := ← boolF j "allScheduled", claims := claims.map (ClaimJ.toModel s) })
+
+def reqEq (a b : Req) : Bool :=
+  a.key == b.key && a.complement == b.complement && sortedVals a.values == sortedVals b.values &&
+  a.gte == b.gte && a.lte == b.lte && a.minValues == b.minValues
+
+def reqsEq (A B : Reqs) : Bool :=
+  A.length == B.length && A.all (fun (k, r) => match B.lookup k with | some q => reqEq r q | none => false)
+
+def sortS (l : List String) : List String := (l.toArray.qsort (· < ·)).toList
+
+/-- the churn applied to the scenario (the specification judges the command against the cluster as it is when
+    the command is released) -/
+def applyChurn (s : Scenario) (ch : Option Json) : Except String Scenario := do
+  match ch with
+  | none => pure s
+  | some c =>
+    let kind ← strF c "kind"
+    match kind with
+    | "pod" => do let p ← pod (← fld c "pod"); pure { s with pods := s.pods ++ [p] }
+    | "bound" => do
+      let p ← pod (← fld c "pod")
+      let nn ← strF c "node"
+      pure { s with nodes := s.nodes.map (fun n => if n.name == nn then { n with pods := n.pods ++ [p] } else n) }
+    | "unavail" => do
+      let itn ← strF c "it"
+      pure { s with its := s.its.map (fun it => if it.name == itn then { it with offerings := it.offerings.map (fun o => { o with available := false }) } else it) }
+    | "delnode" => do
+      let nn ← strF c "node"
+      pure { s with nodes := s.nodes.map (fun n => if n.name == nn then { n with deleting := true } else n) }
+    | k => throw s!"bad churn {k}"
+
+/-- does the real command agree with the model's decision?  Relational where the code may choose
+    (the order among price ties decides which options survive the spot-to-spot cut). -/
+def agrees (dec : Decision) (simClaim : Option MClaim) (cmd : Option (String × List ClaimJ)) : Bool × String :=
+  match dec, cmd with
+  | .noop, none => (true, "")
+  | .noop, some (d, _) => (false, s!"model: no command; implementation: {d}")
+  | .delete, some ("delete", _) => (true, "")
+  | .delete, some (d, _) => (false, s!"model: delete; implementation: {d}")
+  | .delete, none => (false, "model: delete; implementation: no command")
+  | .replace _ _ _, none => (false, "model: replace; implementation: no command")
+  | .replace R kept n, some (d, repl) =>
+    if d != "replace" then (false, s!"model: replace; implementation: {d}") else
+    match repl with
+    | [c] =>
+      if !reqsEq R c.reqs then (false, "the replacement's final requirements differ from the model's") else
+      let keptNames := kept.map (·.name)
+      if n ≥ kept.length then
+        if sortS keptNames == sortS c.its then (true, "") else
+          (false, s!"replacement options: model {sortS keptNames}, implementation {sortS c.its}")
+      else
+        -- truncated to the cheapest `n` (ties in the sort key may fall either way)
+        let okSubset := c.its.all keptNames.contains && c.its.eraseDups.length == c.its.length
+        let okLen := if Karp.Consolidate.hasMinValues R then decide (min Karp.Consolidate.minSpot kept.length ≤ c.its.length) else c.its.length == n
+        let key (it : IType) : Option Nat := match simClaim with | some sc => Karp.Consolidate.orderKey ridKey sc.reqs it | none => none
+        let dropped := kept.filter (fun it => !c.its.contains it.name)
+        let chosen := kept.filter (fun it => c.its.contains it.name)
+        let okCheapest := dropped.all (fun d => chosen.all (fun k => !Karp.Consolidate.priceLt (key d) (key k)))
+        if okSubset && okLen && okCheapest then (true, "") else
+          (false, s!"truncated replacement options are not the cheapest {n} of the model's {kept.length} (subset {okSubset}, length {okLen}, cheapest-first {okCheapest})")
+    | _ => (false, "model: one replacement")
+
+def specVerdict (v : Karp.Spec.Consolidation.Verdict) (allowed : Bool) (whyA : String) : Resp :=
+  match v with
+  | none => { allowed := some allowed, spec := some true, why := whyA }
+  | some (sig, why) => { allowed := some allowed, spec := some false, why := why, extra := some (jObj [("signature", jStr sig)]) }
+
+/-- `c06.single` / `c06.multi` / `c06.empty`: one real `ComputeCommands` call -/
+def opRun (inp impl : Json) : Except String Resp := do
+  if let some e := fldOpt impl "harness_error" then throw s!"harness error: {e.compress}"
+  if (fldOpt impl "panic").isSome then
+    return { allowed := some false, spec := some false, why := "the disruption method panicked", extra := some (jObj [("signature", jStr "panic")]) }
+  let s0 ← scenario (← fld inp "scn")
+  let method ← strF inp "method"
+  let gate ← boolD inp "spotToSpot" false
+  let infos ← listF podInfo inp "podExt"
+  let churned ← boolD impl "churned" false
+  let s ← if churned then applyChurn s0 (fldOpt inp "churn") else pure s0
+  if (← strF impl "err") != "" then
+    return { allowed := some true, spec := some true, why := "ComputeCommands returned an error" }
+  let passed ← listF asStr impl "passed"
+  let simO ← match fldOpt impl "sim" with | some j => simOf s j | none => pure none
+  match fldOpt impl "cmd" with
+  | none =>
+    -- no command: nothing the property speaks about.  When exactly one candidate was evaluated on an unchanged
+    -- cluster, the model must agree that it yields no command.
+    let budget := (← intO inp "budget").getD 1
+    -- (a Balanced pool's scoring may veto any command: not modelled, it can only remove commands)
+    let balanced := (← listF (fun j => strF j "policy") inp "poolExt").any (· == "Balanced")
+    match simO, passed with
+    | some sim, [cn] =>
+      if churned || budget ≤ 0 || balanced then pure { allowed := some true, spec := some true } else
+      match s.node? cn with
+      | none => throw s!"unknown candidate {cn}"
+      | some n =>
+        let dec := Karp.Consolidate.compute ridKey gate [candOf s n] sim
+        let (ok, why) := agrees dec sim.claims.head? none
+        pure { allowed := some ok, spec := some true, why := why }
+    | _, _ => pure { allowed := some true, spec := some true }
+  | some cj =>
+    let decision ← strF cj "decision"
+    let candNames ← (← arrF cj "cands").mapM (fun c => strF c "node")
+    let repl ← listF claimJ cj "repl"
+    let results ← outcome (← fld cj "results")
+    let newClaims ← natF cj "newClaims"
+    let cmd : Karp.Spec.Consolidation.Command :=
+      { method := method, cands := candNames, repl := repl.map (fun c => c.toScn),
+        existing := results.existing, errors := results.errors, newClaims := newClaims }
+    let cands := scenarioCandidates s { existing := results.existing, claims := cmd.repl, errors := results.errors }
+    let v := Karp.Spec.Consolidation.commandOK s ridKey gate infos cmd cands (witnessOnly := !churned)
+    -- the model: the decision computed from the simulation of the command's candidate set
+    let (ok, why) ← if method == "empty" then
+        -- Emptiness: the candidates must be empty by the model's `isEmpty`
+        let bad := (candNames.filterMap s.node?).find? (fun n =>
+          !Karp.Consolidate.isEmpty ((Karp.Spec.Consolidation.reschedulable infos n).map (fun p => let i := Karp.Spec.Consolidation.infoOf infos p.name; { delCost := i.delCost, prio := i.prio })))
+        pure (match bad with | some n => (false, s!"model: node {n.name} is not empty") | none => (decision == "delete", "an Emptiness command must be a delete"))
+      else if churned then
+        -- the cluster changed during the wait: the released command must pass the model's `validateCommand` on the
+        -- re-simulation of the changed cluster
+        match simO with
+        | none => pure (false, "model: the candidates are no longer valid after the change; implementation released the command")
+        | some sim =>
+          let names := match repl with | c :: _ => some c.its | [] => none
+          let ok := Karp.Consolidate.validateCommand names sim
+          pure (ok, if ok then "" else "model: validateCommand rejects the command on the re-simulation; implementation released it")
+      else match simO with
+      | none => pure (true, "")
+      | some sim =>
+        let mc := (candNames.filterMap s.node?).map (candOf s)
+        -- prices the implementation attached to the candidates
+        let implPrices ← (← arrF cj "cands").mapM (fun c => do pure ((← strF c "node"), (← natF c "price")))
+        let priceBad := mc.find? (fun c => implPrices.lookup c.name != some c.price)
+        match priceBad with
+        | some c => pure (false, s!"candidate {c.name}: model price {c.price}, implementation {(implPrices.lookup c.name).getD 0}")
+        | none =>
+          let dec := if method == "multi" then Karp.Consolidate.multiStep ridKey gate mc sim else Karp.Consolidate.compute ridKey gate mc sim
+          pure (agrees dec sim.claims.head? (some (decision, repl)))
+    -- classify a violation at release: if the released command passes `validateCommand` and everything would be fine
+    -- had the replacement taken over the requirements of the re-simulated NodeClaim, the defect is exactly that
+    -- validation compares instance-type names only and releases the replacement with its stale requirements
+    let v := match v, simO with
+      | some ("feasible-at-release", w), some sim =>
+        match sim.claims, cmd.repl with
+        | [sc], [c] =>
+          let alt := { cmd with repl := [{ c with reqs := c.reqs.add (sc.reqs.map (·.2)) }] }
+          if churned && ok && (Karp.Spec.Consolidation.feasibleHome s ridKey infos alt cands (witnessOnly := false)).isNone then
+            some ("stale-replacement-requirements", w)
+          else v
+        | _, _ => v
+      | _, _ => v
+    pure (specVerdict v ok why)
+
+/-- `c06.compute`: `computeConsolidation` (before validation) on an arbitrary candidate subset, then
+    `filterOutSameInstanceType`; exact comparison with `compute` / `multiStep`, specification on every decision -/
+def opCompute (inp impl : Json) : Except String Resp := do
+  if let some e := fldOpt impl "harness_error" then throw s!"harness error: {e.compress}"
+  if (fldOpt impl "panic").isSome then
+    return { allowed := some false, spec := some false, why := "computeConsolidation panicked", extra := some (jObj [("signature", jStr "panic")]) }
+  let s ← scenario (← fld inp "scn")
+  let gate ← boolD inp "spotToSpot" false
+  let infos ← listF podInfo inp "podExt"
+  if (← strF impl "err") != "" then
+    return { allowed := some true, spec := some true, why := "computeConsolidation returned an error" }
+  let passed ← listF asStr impl "passed"
+  if passed.isEmpty then return { allowed := some true, spec := some true }
+  let simO ← match fldOpt impl "sim" with | some j => simOf s j | none => pure none
+  let mc := (passed.filterMap s.node?).map (candOf s)
+  let cmdO ← match fldOpt impl "cmd" with
+    | none => pure none
+    | some cj => do
+      let decision ← strF cj "decision"
+      let repl ← listF claimJ cj "repl"
+      pure (some (cj, decision, repl))
+  -- the model
+  let (ok, why) ← match simO with
+    | none => pure (cmdO.isNone, "the simulation failed; a command was produced")
+    | some sim => do
+      let dec := Karp.Consolidate.compute ridKey gate mc sim
+      let (ok1, why1) := agrees dec sim.claims.head? (cmdO.map (fun (_, d, r) => (d, r)))
+      if !ok1 then pure (false, why1) else
+      -- the same-type step
+      match fldOpt impl "sameType" with
+      | none => pure (true, "")
+      | some st => do
+        let err ← boolF st "err"
+        let its ← listF asStr st "its"
+        match Karp.Consolidate.multiStep ridKey gate mc sim with
+        | .replace _ kept _ =>
+          if !err && sortS its == sortS (kept.map (·.name)) then pure (true, "") else
+            pure (false, s!"filterOutSameInstanceType: model keeps {sortS (kept.map (·.name))}, implementation (error {err}) {sortS its}")
+        | _ => if err || its.isEmpty then pure (true, "") else
+            pure (false, s!"filterOutSameInstanceType: model invalidates the replacement, implementation keeps {sortS its}")
+  match cmdO with
+  | none => pure { allowed := some ok, spec := some true, why := why }
+  | some (cj, _, repl) =>
+    let candNames ← (← arrF cj "cands").mapM (fun c => strF c "node")
+    let results ← outcome (← fld cj "results")
+    let newClaims ← natF cj "newClaims"
+    let implPrices ← (← arrF cj "cands").mapM (fun c => do pure ((← strF c "node"), (← natF c "price")))
+    let priceBad := mc.find? (fun c => implPrices.lookup c.name != some c.price)
+    let (ok, why) := match priceBad with
+      | some c => (false, s!"candidate {c.name}: model price {c.price}, implementation {(implPrices.lookup c.name).getD 0}")
+      | none => (ok, why)
+    let cmd : Karp.Spec.Consolidation.Command :=
+      { method := "compute", cands := candNames, repl := repl.map (fun c => c.toScn),
+        existing := results.existing, errors := results.errors, newClaims := newClaims }
+    let cands := scenarioCandidates s { existing := results.existing, claims := cmd.repl, errors := results.errors }
+    pure (specVerdict (Karp.Spec.Consolidation.commandOK s ridKey gate infos cmd cands) ok why)
+
+/-! ### leaf ops -/
+
+def offeringJ (j : Json) : Except String Karp.Consolidate.Offering := do
+  pure { zone := ← strF j "zone", ct := ← strF j "capacityType", price := ← natF j "price", available := ← boolF j "available",
+         resID := (← strO j "reservationID").getD "" }
+
+/-- requirements given as `[{key, exprs:[{op, values, minValues}]}]`, each key built as the harness does -/
+def reqsJ (j : Json) : Except String Reqs := do
+  (← asArr j).mapM (fun e => do
+    let k ← strF e "key"
+    let es ← (← arrF e "exprs").mapM parseExpr
+    let r ← build k es
+    pure (r.key, r))
+
+def jPrice : Option Nat → Json
+  | some p => jNat p
+  | none => jInt (-1)
+
+def priceJ (j : Json) : Except String (Option Nat) := do
+  let i ← asInt j
+  pure (if i < 0 then none else some i.toNat)
+
+/-- `c06.worst`: `Offerings.Compatible`, `Available().WorstLaunchPrice`, `WorstLaunchPrice`, `Cheapest`, `MostExpensive` -/
+def opWorst (inp _impl : Json) : Except String Resp := do
+  let ofs ← listF offeringJ inp "offerings"
+  let R ← reqsJ (← fld inp "reqs")
+  let compat := ofs.map (Karp.Consolidate.offeringCompat ridKey R)
+  let model := jObj [
+    ("compat", jArr (compat.map jBool)),
+    ("worst", jPrice (Karp.Consolidate.worstLaunchPrice ridKey R ofs)),
+    ("worstAvailable", jPrice (Karp.Consolidate.worstLaunchPrice ridKey R (Karp.Consolidate.available ofs))),
+    ("cheapest", jPrice (Karp.Consolidate.cheapest (Karp.Consolidate.compatible ridKey R ofs))),
+    ("dearest", jPrice (Karp.Consolidate.dearest (Karp.Consolidate.compatible ridKey R ofs)))]
+  pure { model := some model }
+
+def itJ (j : Json) : Except String IType := do pure (itypeOf (← it j))
+
+/-- the pin `computeConsolidation` applies after the filter -/
+def pinned (R : Reqs) : Reqs :=
+  let ct := R.get Karp.Consolidate.ctKey
+  if ct.has Karp.Consolidate.spot && ct.has Karp.Consolidate.onDemand then R.add1 Karp.Consolidate.spotReq else R
+
+/-- the hypotheses of `C06_price` on one filter call (provider contract + the scheduler's reserved pin) -/
+def priceHyps (R : Reqs) (its : List IType) : Bool :=
+  its.all (fun it => (Karp.Consolidate.available it.offerings).all (fun o =>
+    (!Karp.Consolidate.offeringCompat ridKey R o) ||
+    ((o.ct == Karp.Consolidate.reserved || o.ct == Karp.Consolidate.spot || o.ct == Karp.Consolidate.onDemand) &&
+     (o.ct != Karp.Consolidate.reserved || (!(R.get Karp.Consolidate.ctKey).has Karp.Consolidate.spot && !(R.get Karp.Consolidate.ctKey).has Karp.Consolidate.onDemand)))))
+
+/-- `c06.remove`: `NodeClaim.RemoveInstanceTypeOptionsByPriceAndMinValues` -/
+def opRemove (inp impl : Json) : Except String Resp := do
+  let its ← listF itJ inp "its"
+  let R ← reqsJ (← fld inp "reqs")
+  let maxPrice ← priceJ (← fld inp "maxPrice")
+  let model := match Karp.Consolidate.removeByPrice ridKey R maxPrice its with
+    | none => jObj [("err", jBool true), ("kept", jArr [])]
+    | some kept => jObj [("err", jBool false), ("kept", jArr (kept.map (fun it => jStr it.name)))]
+  -- the property's price clause on what the real filter kept, under the hypotheses of C06_price
+  let spec ← match fldOpt impl "kept", maxPrice with
+    | some k, some mp => do
+      let names ← strList k
+      if !priceHyps R its then pure none else
+      let R' := pinned R
+      let bad := (its.filter (fun it => names.contains it.name)).find? (fun it =>
+        (Karp.Consolidate.available it.offerings).any (fun o => Karp.Consolidate.offeringCompat ridKey R' o && decide (mp ≤ o.price)))
+      pure (some (bad.isNone, match bad with | some it => s!"kept option {it.name} may launch at or above the price bound {mp}" | none => ""))
+    | _, _ => pure none
+  match spec with
+  | some (ok, why) => pure { model := some model, spec := some ok, why := why }
+  | none => pure { model := some model }
+
+/-- `c06.isempty`: `EvictionCost` per pod and `Candidate.IsEmpty` -/
+def opIsEmpty (inp impl : Json) : Except String Resp := do
+  let pods ← (← arrF inp "pods").mapM (fun j => do
+    pure ((← boolD j "daemon" false), (← strO j "phase").getD "", (← intO j "delCost"), (← intO j "priority")))
+  let costs := pods.map (fun (_, _, d, p) => Karp.Consolidate.evictionCostScaled { delCost := d, prio := p })
+  let resched := pods.filter (fun (dm, ph, _, _) => !dm && ph != "Succeeded" && ph != "Failed")
+  let empty := Karp.Consolidate.isEmpty (resched.map (fun (_, _, d, p) => { delCost := d, prio := p }))
+  let model := jObj [("costs", jArr (costs.map jInt)), ("candidate", jBool true), ("empty", jBool empty)]
+  -- the property's rule on the implementation's answer
+  let specEmpty := resched.all (fun (_, _, d, p) => !Karp.Spec.Consolidation.evictionCostPositive { pod := "", delCost := d, prio := p, terminal := false })
+  let spec := match fldOpt impl "empty" with
+    | some (.bool b) => some (b == specEmpty)
+    | _ => none
+  pure { model := some model, spec := spec, why := if spec == some false then s!"IsEmpty disagrees with 'no reschedulable pod has a positive eviction cost' ({specEmpty})" else "" }
+
+def handle : Handler := fun op inp impl =>
+  match op with
+  | "c06.single" | "c06.multi" | "c06.empty" | "c06.validate" => opRun inp impl
+  | "c06.compute" => opCompute inp impl
+  | "c06.worst" => opWorst inp impl
+  | "c06.remove" => opRemove inp impl
+  | "c06.isempty" => opIsEmpty inp impl
+  | _ => .error s!"unknown op {op}"
 
 end Karp.Driver.C06
